@@ -207,9 +207,20 @@ def r2(ctx: Ctx) -> None:
     seq_vars = []
     if cs and isinstance(kwarg(cs[0].ast, "sequence_number"), ast.Name):
         seq_vars.append((cf, kwarg(cs[0].ast, "sequence_number").id))  # type: ignore[union-attr]
+    elif cs:
+        n_seq += 1
+        ctx.ob("C15.R2", cf, "the sequence number handed to create_snapshot is a per-attempt local", cs[0], False,
+               f"`{norm_text(kwarg(cs[0].ast, 'sequence_number')) if kwarg(cs[0].ast, 'sequence_number') is not None else None}`: a value "
+               "kept on the transaction across retry attempts repeats the number of the commit that won the race")
     seq_vars.append((ctx.fn("snapshot_manager.SnapshotManager.create_snapshot"), "sequence_number"))
     for f, var in seq_vars:
         for n in ctx.cfg(f).nodes:
+            if n.kind == "stmt" and isinstance(n.ast, ast.Assign) and any(
+                    isinstance(t, (ast.Tuple, ast.List)) and any(isinstance(e, ast.Name) and e.id == var for e in t.elts) for t in n.ast.targets):
+                n_seq += 1
+                ctx.ob("C15.R2", f, "sequence number = base_metadata.last_sequence_number + 1", n, False,
+                       f"`{norm_text(n.ast)[:80]}`: the sequence number is unpacked from a value that outlives the attempt (e.g. an identity "
+                       "cached on the transaction): a retried commit repeats the number of the commit that won the race")
             if n.kind == "stmt" and isinstance(n.ast, ast.Assign) and any(isinstance(t, ast.Name) and t.id == var for t in n.ast.targets):
                 n_seq += 1
                 v = n.ast.value
